@@ -50,6 +50,14 @@ def cases(thorough):
             for dt in dts:
                 for sh in sorted(set(shapes) | {"2x3", "2x1", "1x3"}):
                     yield {"block": "norm", "nvec": nvec, "u1": u1, "dt": dt, "shape": sh}
+    # the same operations on Vectors whose second and third components were attached after construction
+    for nvec in (2, 3):
+        for opname in list(ARITH)[:4] + list(CMPS)[:2]:
+            for kind in RHS_KINDS:
+                yield {"block": "binary", "nvec": nvec, "op": opname, "kind": kind, "u1": "m", "u2": "cm", "dt": "f8", "shape": "3", "construct": "late"}
+        for opname in ("neg", "pow2", "rmul", "np.sqrt", "np.add", "np.concatenate", "getitem_slice", "copy", "alias:add_vv"):
+            yield {"block": "other", "nvec": nvec, "op": opname, "u1": "m", "u2": "cm", "dt": "f8", "shape": "3", "construct": "late"}
+        yield {"block": "norm", "nvec": nvec, "u1": "m", "dt": "f8", "shape": "3", "construct": "late"}
     lat = [-1, 0, 2]
     vecs = [v for v in itertools.product(lat, repeat=3)]
     upairs = [("m", "m"), ("m", "cm"), ("cm", "km"), ("g", "M_sun"), ("m", "s")]
@@ -61,10 +69,19 @@ def cases(thorough):
         yield {"block": "products_lowdim", "nvec": nv, "u1": "m", "u2": "cm"}
 
 
+_LATE = False  # build Vectors with one component and attach the others afterwards (v.y = ..., v.z = ...)
+
+
 def make_vec(nvec, shape, dt, unit, which):
     import osyris
 
     comps = [_arr.values_for(shape, dt, 0, which) + dt(i * 10) for i in range(nvec)]
+    if _LATE and nvec > 1:
+        v = osyris.Vector(comps[0].copy(), unit=unit)
+        v.y = osyris.Array(comps[1].copy(), unit=unit)
+        if nvec > 2:
+            v.z = osyris.Array(comps[2].copy(), unit=unit)
+        return v, comps
     return osyris.Vector(*[c.copy() for c in comps], unit=unit), comps
 
 
@@ -123,6 +140,15 @@ def compare_lifted(acc, idx, c, label, vec_result, comp_results, must_raise=Fals
 
 
 def run_case(acc, idx, c):
+    global _LATE
+    _LATE = c.get("construct") == "late"
+    try:
+        return _run_case(acc, idx, c)
+    finally:
+        _LATE = False
+
+
+def _run_case(acc, idx, c):
     import osyris
 
     A_, V_ = osyris.Array, osyris.Vector
